@@ -33,6 +33,7 @@ type c19Proto struct {
 	durOf   []int
 	count   []int32 // invocations per job id
 	ended   int32
+	noReply bool // UDP: no response datagram
 }
 
 func (p *c19Proto) Invoke(ctx context.Context, pkg []byte) []byte {
@@ -73,6 +74,9 @@ func (p *c19Proto) Invoke(ctx context.Context, pkg []byte) []byte {
 	atomic.AddInt32(&p.running, -1)
 	p.lg.add(c19KEnd, id)
 	atomic.AddInt32(&p.ended, 1)
+	if p.noReply {
+		return nil
+	}
 	return []byte{0, 0, 0, 4}
 }
 func (p *c19Proto) ParsePackage(b []byte) (int, int)   { return protocol.TarsRequest(b) }
